@@ -48,7 +48,7 @@ ASSUMPTIONS = [
   "produce non-finite state are discarded and counted",
   "positions/velocities themselves are not compared with MuJoCo (that is C08); MuJoCo follows MJWarp's state so that round-off cannot decide who sleeps first",
 ]
-BUDGET = {"quick": dict(examples=224, seconds=120, workers=16), "thorough": dict(examples=4000, seconds=1500, workers=16)}
+BUDGET = {"quick": dict(examples=224, seconds=420, workers=16), "thorough": dict(examples=4000, seconds=1500, workers=16)}
 
 NCON, NJ = 64, 256
 MINAWAKE = int(mujoco.mjMINAWAKE)
